@@ -3,7 +3,8 @@
 
 A test spec:
   {'name','parallel','priority','dur':[ms per iteration],'rc':[status per iteration],'should_fail','xfail_kw',
-   'timeout': None|int seconds, 'protocol':'exitcode'|'tap','tap': None|str,'term','suites':[...],'victim':bool}
+   'timeout': None|int seconds, 'protocol':'exitcode'|'tap','tap': None|str,'term','suites':[...],'victim':bool,
+   'leak': ms a forked helper keeps the test's stdout/stderr open after the test program exited, 'leakterm'}
 
 `tests` is listed in the order meson is documented to start them (descending priority; the declaration order
 `decl` is a shuffle that keeps the relative order of equal-priority tests, so the generator never relies on the
@@ -21,14 +22,14 @@ PROBE = os.path.join(os.path.dirname(os.path.dirname(os.path.dirname(os.path.abs
 PYTHON = sys.executable
 SUITES = ['s1', 's2', 's3']
 PROFILES = ['long-par-before-serial', 'zeros', 'serial-b2b', 'mixed', 'classify', 'allgood', 'saturate',
-            'stragglers', 'victims', 'maxfail-race', 'onebad']
+            'stragglers', 'victims', 'maxfail-race', 'onebad', 'leaky']
 VICTIM_DUR = 5000     # ms: far beyond any effective timeout used for victims (<= 1 s)
 
 
 def _t(name: str, **kw: T.Any) -> dict:
     d = {'name': name, 'parallel': True, 'priority': 0, 'dur': [0], 'rc': [0], 'should_fail': False,
          'xfail_kw': 'should_fail', 'timeout': None, 'protocol': 'exitcode', 'tap': None, 'term': 'default',
-         'suites': [], 'victim': False}
+         'suites': [], 'victim': False, 'leak': 0, 'leakterm': 'default'}
     d.update(kw)
     return d
 
@@ -106,7 +107,7 @@ def gen_project(rng: random.Random, profile: str, idx: int = 0) -> dict:
         seq.append(t)
         return t
 
-    good_only = profile not in ('mixed', 'classify', 'maxfail-race')
+    good_only = profile not in ('mixed', 'classify', 'maxfail-race', 'leaky')
     P = lambda lo, hi, **kw: add(parallel=True, dur=_durs(rng, lo, hi), **kw)   # noqa: E731
     S = lambda lo, hi, **kw: add(parallel=False, dur=_durs(rng, lo, hi), **kw)  # noqa: E731
 
@@ -156,6 +157,24 @@ def gen_project(rng: random.Random, profile: str, idx: int = 0) -> dict:
             for _ in range(rng.randint(0, 2)):
                 (P if rng.random() < 0.6 else S)(0, 120)
         S(0, 40)
+    elif profile == 'leaky':
+        # the test program exits at once, a helper it forked keeps the inherited stdout/stderr open:
+        # (a) past the limit  -> the limit passes with the pipe still held: TIMEOUT, group terminated
+        # (b) for a short while, generous limit -> classified by the exit status once the pipe closes
+        for _ in range(rng.randint(1, 3)):
+            (P if rng.random() < 0.7 else S)(0, 60)
+        for k in range(rng.randint(1, 2)):
+            add(parallel=rng.random() < 0.7, dur=[rng.randint(0, 40)], leak=VICTIM_DUR, timeout=1, victim=True,
+                rc=[rng.choice([0, 0, 1, 77])], should_fail=rng.random() < 0.2)
+            (P if rng.random() < 0.6 else S)(0, 80)
+        if idx < len(PROFILES) or rng.random() < 0.3:
+            # directed probe of known finding descendant-left-running-after-TIMEOUT:sigterm-ignore
+            add(parallel=True, dur=[rng.randint(0, 30)], leak=VICTIM_DUR, leakterm='ignore', timeout=1, victim=True)
+            S(20, 60)
+        for k in range(rng.randint(1, 3)):
+            add(parallel=rng.random() < 0.6, dur=[rng.randint(0, 40)], leak=rng.randint(40, 220),
+                rc=[rng.choice([0, 0, 1, 77, 99])], should_fail=rng.random() < 0.25)
+        S(0, 40)
     elif profile == 'maxfail-race':
         # a failing short test while long parallel tests (some ignoring SIGTERM) are still running
         for _ in range(rng.randint(1, 3)):
@@ -186,7 +205,7 @@ def gen_project(rng: random.Random, profile: str, idx: int = 0) -> dict:
 
     repeat_var = profile in ('mixed', 'classify')
     for t in seq:
-        if not t['victim'] and t['rc'] == [0] and profile not in ('maxfail-race', 'zeros'):
+        if not t['victim'] and t['rc'] == [0] and profile not in ('maxfail-race', 'zeros', 'leaky'):
             if profile in ('classify', 'mixed', 'allgood', 'onebad') or rng.random() < 0.3:
                 _classify_fields(rng, t, good_only, repeat_var)
     if profile == 'onebad':
@@ -216,8 +235,8 @@ def gen_project(rng: random.Random, profile: str, idx: int = 0) -> dict:
             t['suites'] = sorted(rng.sample(SUITES, 2))
         # generous or disabled (0 / negative = no limit, Unit-tests.md) timeouts on everything that is not a victim
         if not t['victim']:
-            t['timeout'] = rng.choice([None, None, 0, -1, -1, -7, -30, 600, 1000] if profile != 'victims'
-                                      else [0, -1, -3, 600, 1000])
+            t['timeout'] = rng.choice([None, None, 0, -1, -1, -7, -30, 600, 1000]
+                                      if profile not in ('victims', 'leaky') else [0, -1, -3, 600, 1000])
 
     # priorities: non-increasing along seq, with random break points
     prio = rng.choice([0, 0, 10, 1000])
@@ -243,6 +262,10 @@ def probe_args(t: dict) -> T.List[str]:
         a.append('tap=' + t['tap'])
     if t['term'] != 'default':
         a.append('term=' + t['term'])
+    if t.get('leak'):
+        a.append(f"leak={t['leak']}")
+        if t.get('leakterm', 'default') != 'default':
+            a.append('leakterm=' + t['leakterm'])
     if t['victim']:
         a.append('cap=60')
     return a
@@ -330,7 +353,7 @@ def gen_invocations(rng: random.Random, proj: dict, count: int) -> T.List[dict]:
         if prof == 'onebad':
             out.append(inv)
             continue
-        if prof == 'victims':
+        if prof in ('victims', 'leaky'):
             inv['j'] = rng.choice([1, 2, 3, 8])
             # effective timeout of victims: timeout 1 s x multiplier
             inv['tmult'] = rng.choice([None, 0.3, 0.5, 0.25])
